@@ -17,7 +17,7 @@ def run_focus(chk: Check, module: str, focus: str, *, max_top: int, invariants=(
               simulate: str | None = None, depth: int | None = None, extra_constants=None,
               timeout: int = 3000, export: str = "Export"):
     """Model-check one focus; returns the TlcRun (caller must cleanup()) or None."""
-    consts = {"Pool": "<- MCPool", "DataSets": "<- MCData", "Cfgs": "<- MCCfgs",
+    consts = {"PoolAt": "<- MCPoolAt", "DataSets": "<- MCData", "Cfgs": "<- MCCfgs",
               "MaxTop": str(max_top), "Focus": f'"{focus}"'}
     consts.update(extra_constants or {})
     cfg = tlc.cfg_text(constants=consts, invariants=[export, *invariants])
